@@ -6,7 +6,8 @@ from . import c04
 EXPLANATION = ("C08: a second peer is refused with NNG_EBUSY before any socket state is written; s->p is cleared only for "
                "the current peer; pair1 delivers only messages whose hop header is present, at most 0xff and within the ttl, "
                "disconnects on a malformed header, drops without disconnect beyond the ttl, and increments the hop count on "
-               "send; sends never discard; the buffers are touched only through the FIFO accessors.")
+               "send; sends never discard; the buffers are touched only through the FIFO accessors."
+               " Also: only the attached peer's teardown touches the socket state (R4); wait lists are served in arrival order (R5).")
 
 
 def rule_r1(ctx):
